@@ -420,7 +420,20 @@ func (tp *ethTxPool) addWaiting(tx *etypes.Transaction, address common.Address) 
 	}
 	if waitingTxCount >= tp.waitingLimit {
 		// waiting queue is full, try replace or return err
-		if tp.waiting[address] == nil || !tp.waiting[address].TryReplace(tx) {
+		w := tp.waiting[address]
+		if w == nil {
+			return errTxPoolWaitingQueueIsFull
+		}
+		var evicted *etypes.Transaction
+		if w.Len() > 0 {
+			evicted = w.Get(w.MaxNonce())
+		}
+		replaced := w.TryReplace(tx)
+		if evicted != nil && w.Get(evicted.Nonce()) != evicted {
+			// the highest-nonce tx was pushed out of the queue: forget it in the lookup table too
+			delete(tp.all, evicted.Hash())
+		}
+		if !replaced {
 			return errTxPoolWaitingQueueIsFull
 		}
 	} else {
